@@ -592,13 +592,15 @@ func pathShape(diff string) string {
 	return p
 }
 
+var reQuoted = regexp.MustCompile(`"(?:[^"\\]|\\.)*"`)
 var reNumber = regexp.MustCompile(`^(0x[0-9a-f]+|-?\d+|".*"|true|false|!=)$`)
 
 // diffWhat names the kind of difference without the values involved.
 func diffWhat(diff string) string {
 	if i := strings.Index(diff, ": "); i >= 0 {
 		var keep []string
-		for _, f := range strings.Fields(diff[i+2:]) {
+		// quoted values may hold blanks: drop them whole before splitting
+		for _, f := range strings.Fields(reQuoted.ReplaceAllString(diff[i+2:], "")) {
 			if reNumber.MatchString(f) {
 				continue
 			}
